@@ -217,6 +217,11 @@ def r2_determinism(repo, rep, f, ctx):
           at_ = fctx_.node_at(c)
           cx_ = canon.of(repo).expr(fctx_.rd.expand(at_, c, keep=tuple(fn.params))[0]) if at_ is not None else c
           rs = au.kwarg(cx_, 'random_state') if isinstance(cx_, ast.Call) else au.kwarg(c, 'random_state')
+          if rs is None:
+            # rv_frozen.rvs(size=None, random_state=None): the second positional argument
+            pos_ = cx_.args if isinstance(cx_, ast.Call) else c.args
+            if len(pos_) >= 2 and not any(isinstance(a_, ast.Starred) for a_ in pos_[:2]):
+              rs = pos_[1]
           ok = rs is not None and norm(rs) == 'random_state' and 'random_state' in fn.params
           if not ok and isinstance(cx_, ast.Call) and (any(k.arg is None for k in cx_.keywords) or any(isinstance(a_, ast.Starred) for a_ in cx_.args)):
             rep.undecided('R2/determinism', 'draw %s' % norm(c)[:40], 'the arguments of the draw are passed through an unresolved */** table', fn.loc(c))
